@@ -28,7 +28,7 @@ pub struct RefCarrier {
     pub epus_t: Vec<f64>, pub epus_by_srv: BTreeMap<String, f64>, pub nepus_an: f64, pub cgnus_an: f64,
     pub prod_an: f64, pub prod_by_src: BTreeMap<String, f64>, pub used_t: Vec<f64>, pub used_by_src: BTreeMap<String, f64>, pub f_match: Vec<f64>,
     pub exp_an: f64, pub exp_grid: f64, pub exp_nepus: f64, pub del_grid_t: Vec<f64>, pub del_grid: f64, pub del_onst: f64, pub del_an: f64,
-    pub we_del: R3, pub we_exp_a: R3, pub we_exp: R3, pub a: R3, pub b: R3, pub a_by_srv: BTreeMap<String, R3>, pub b_by_srv: BTreeMap<String, R3>,
+    pub we_del: R3, pub we_del_grid: R3, pub we_del_onst: R3, pub we_del_cgn: R3, pub we_exp_a: R3, pub we_exp_nepus_a: R3, pub we_exp_grid_a: R3, pub we_exp_ab: R3, pub we_exp_nepus_ab: R3, pub we_exp_grid_ab: R3, pub we_exp: R3, pub a: R3, pub b: R3, pub a_by_srv: BTreeMap<String, R3>, pub b_by_srv: BTreeMap<String, R3>,
 }
 #[derive(Default, Clone, Debug)]
 pub struct RefResult { pub cr: BTreeMap<String, RefCarrier>, pub a: R3, pub b: R3, pub a_by_srv: BTreeMap<String, R3>, pub b_by_srv: BTreeMap<String, R3>, pub rer: f64,
@@ -131,8 +131,10 @@ pub fn evaluate(comps: &Components, w: &Factors, k_exp: f64, lm: bool) -> Result
         r.del_an = r.del_grid + r.del_onst + r.cgnus_an;
         // weighted energy (20)-(28)
         let grid_a = fac.get(cr, Source::RED, Dest::SUMINISTRO, Step::A)?;
-        r.we_del = add(mul(grid_a, r.del_grid), mul(grid_a, r.cgnus_an));
-        if r.del_onst != 0.0 { r.we_del = add(r.we_del, mul(fac.get(cr, Source::INSITU, Dest::SUMINISTRO, Step::A)?, r.del_onst)); }
+        r.we_del_grid = mul(grid_a, r.del_grid);
+        r.we_del_cgn = mul(grid_a, r.cgnus_an);
+        if r.del_onst != 0.0 { r.we_del_onst = mul(fac.get(cr, Source::INSITU, Dest::SUMINISTRO, Step::A)?, r.del_onst); }
+        r.we_del = add(add(r.we_del_grid, r.we_del_cgn), r.we_del_onst);
         if r.exp_an != 0.0 {
             let favg = |d: Dest, st: Step| -> Result<R3, String> {
                 let mut f = [0.0; 3];
@@ -145,9 +147,13 @@ pub fn evaluate(comps: &Components, w: &Factors, k_exp: f64, lm: bool) -> Result
             let z = [0.0; 3];
             let (an, ag) = (if r.exp_nepus == 0.0 { z } else { favg(Dest::A_NEPB, Step::A)? }, if r.exp_grid == 0.0 { z } else { favg(Dest::A_RED, Step::A)? });
             let (bn, bg) = (if r.exp_nepus == 0.0 { z } else { favg(Dest::A_NEPB, Step::B)? }, if r.exp_grid == 0.0 { z } else { favg(Dest::A_RED, Step::B)? });
-            r.we_exp_a = add(mul(an, r.exp_nepus), mul(ag, r.exp_grid));
-            let ab = add(mul(sub(bn, an), r.exp_nepus), mul(sub(bg, ag), r.exp_grid));
-            r.we_exp = add(r.we_exp_a, mul(ab, k_exp));
+            r.we_exp_nepus_a = mul(an, r.exp_nepus);
+            r.we_exp_grid_a = mul(ag, r.exp_grid);
+            r.we_exp_a = add(r.we_exp_nepus_a, r.we_exp_grid_a);
+            r.we_exp_nepus_ab = mul(sub(bn, an), r.exp_nepus);
+            r.we_exp_grid_ab = mul(sub(bg, ag), r.exp_grid);
+            r.we_exp_ab = add(r.we_exp_nepus_ab, r.we_exp_grid_ab);
+            r.we_exp = add(r.we_exp_a, mul(r.we_exp_ab, k_exp));
         }
         r.a = sub(r.we_del, r.we_exp_a);
         r.b = sub(r.we_del, r.we_exp);
@@ -195,6 +201,11 @@ pub fn compare(ep: &EnergyPerformance, r: &RefResult, noise: f64) -> Option<Stri
         for (s, y) in &rc.prod_by_src { let x = b.prod.by_src_an.iter().find(|(k, _)| format!("{:?}", k) == *s).map(|(_, v)| *v); if x.map(|x| close(x as f64, *y)) != Some(true) { return Some(format!("{}: production of {} = {:?}, declared {:.4}", name, s, x, y)); } }
         for (s, y) in &rc.used_by_src { let x = b.prod.epus_by_src_an.iter().find(|(k, _)| format!("{:?}", k) == *s).map(|(_, v)| *v); if x.map(|x| close(x as f64, *y)) != Some(true) { return Some(format!("{}: production of {} used by EPB services = {:?}, the equations give {:.4}", name, s, x, y)); } }
         for (s, y) in &rc.epus_by_srv { let x = b.used.epus_by_srv_an.iter().find(|(k, _)| format!("{:?}", k) == *s).map(|(_, v)| *v); if x.map(|x| close(x as f64, *y)) != Some(true) { return Some(format!("{}: EPB use of service {} = {:?}, declared {:.4}", name, s, x, y)); } }
+        if let Some(w) = c3(&format!("{}: weighted energy delivered by the grid", name), b.we.del_grid, rc.we_del_grid).or_else(|| c3(&format!("{}: weighted energy delivered on site", name), b.we.del_onst, rc.we_del_onst))
+            .or_else(|| c3(&format!("{}: weighted cogeneration input", name), b.we.del_cgn, rc.we_del_cgn))
+            .or_else(|| c3(&format!("{}: step A weighted energy exported to non-EPB uses (24)", name), b.we.exp_nepus_a, rc.we_exp_nepus_a)).or_else(|| c3(&format!("{}: step A weighted energy exported to the grid (25)", name), b.we.exp_grid_a, rc.we_exp_grid_a))
+            .or_else(|| c3(&format!("{}: step A-to-B term of the energy exported to non-EPB uses (27)", name), b.we.exp_nepus_ab, rc.we_exp_nepus_ab)).or_else(|| c3(&format!("{}: step A-to-B term of the energy exported to the grid (28)", name), b.we.exp_grid_ab, rc.we_exp_grid_ab))
+            .or_else(|| c3(&format!("{}: step A-to-B term of the exported energy (26)", name), b.we.exp_ab, rc.we_exp_ab)) { return Some(w); }
         if let Some(w) = c3(&format!("{}: weighted delivered energy", name), b.we.del, rc.we_del).or_else(|| c3(&format!("{}: weighted exported energy, step A", name), b.we.exp_a, rc.we_exp_a))
             .or_else(|| c3(&format!("{}: weighted exported energy", name), b.we.exp, rc.we_exp)).or_else(|| c3(&format!("{}: step A", name), b.we.a, rc.a)).or_else(|| c3(&format!("{}: step B", name), b.we.b, rc.b)) { return Some(w); }
         for (s, y) in &rc.a_by_srv { match b.we.a_by_srv.iter().find(|(k, _)| format!("{:?}", k) == *s) { Some((_, x)) => if let Some(w) = c3(&format!("{}: step A of service {}", name, s), *x, *y) { return Some(w); }, None => return Some(format!("{}: no step A for service {}", name, s)) } }
